@@ -349,3 +349,15 @@ Theorem refines_no_ub readmem af tgt mask fs va ras root r :
 Proof.
   intros Hrd H. rewrite <- fst_observe, H. now apply arch_walk_status.
 Qed.
+
+(** * Over-long paging forms are rejected by [first_step_pgt] *)
+Lemma too_many_fields_rejected readmem ras root mask pf tgt fuel va :
+  (pf_max_fields (pte_format pf) < length (fieldsz pf))%nat ->
+  observe (addrxlat_walk readmem {| m_kind := KPgt ras root mask pf; m_target := tgt |} fuel (init_step va))
+  = (NOTIMPL, None).
+Proof.
+  intro H.
+  unfold addrxlat_walk, init_step. cbn [first_step m_kind s_base]. unfold first_step_pgt.
+  destruct (Nat.ltb_spec (pf_max_fields (pte_format pf)) (length (fieldsz pf))) as [_|H']; [reflexivity|].
+  exfalso. apply (Nat.lt_irrefl (length (fieldsz pf))). eapply Nat.le_lt_trans; eassumption.
+Qed.
